@@ -165,6 +165,71 @@ class AuditCache:
             os.replace(tmp, self.path)
 
 
+# --- exact site coverage with gcov (thorough tier) -------------------------------------------------------
+class Gcov:
+    """A --coverage build of the same sources; every diagnosed case is run a second time with it and the line counts of
+    the error()/fatal() call sites are read back with gcov.  Exact, unlike message matching (several sites share a text)."""
+
+    def __init__(self, scratch):
+        import shutil, glob
+        self.objdir = vlib.build("gcov")
+        self.out = os.path.join(scratch, "gcda")
+        os.makedirs(self.out, exist_ok=True)
+        self.bin = os.path.join(scratch, "cproc-qbe-gcov")
+        shutil.copy2(os.path.join(self.objdir, "cproc-qbe"), self.bin)
+        for g in glob.glob(os.path.join(self.objdir, "*.gcno")):
+            shutil.copy2(g, self.out)
+        self.env = dict(os.environ, GCOV_PREFIX=self.out, GCOV_PREFIX_STRIP=str(len(self.objdir.strip("/").split("/"))))
+        self.mismatch = 0
+
+    def run(self, src, args=()):
+        rc, out, err = vlib.run([self.bin] + list(args), stdin=src.encode("utf-8", "surrogateescape"), timeout=TIMEOUT, env=self.env)
+        return rc
+
+    def executed_lines(self):
+        hit = set()
+        for fn in ANCHORS:
+            p = subprocess.run(["gcov", "-t", "-o", self.out, fn], cwd=vlib.REPO, stdout=subprocess.PIPE, stderr=subprocess.PIPE, text=True, errors="replace")
+            if p.returncode != 0:
+                raise vlib.MachineryError("gcov failed on %s: %s" % (fn, p.stderr[-300:]))
+            for ln in p.stdout.split("\n"):
+                m = re.match(r"\s*([0-9]+)\*?:\s*([0-9]+):", ln)
+                if m and int(m.group(1)) > 0:
+                    hit.add("%s:%s" % (fn, m.group(2)))
+        return hit
+
+
+# --- diagnostics that depend on the environment, not on the program (not generated by the spec) -----------
+def io_cases(ctx, objdir, sites, gcov):
+    """open failure of the input, of the -o output, and a failing write: the three fatal() sites of scan.c/main.c a user can reach."""
+    exe = os.path.join(objdir, "cproc-qbe")
+    missing = os.path.join(ctx.scratch, "no-such-dir", "x.c")
+    runs = [("E_open_input", [exe, missing], b""),
+            ("E_open_output", [exe, "-o", os.path.join(ctx.scratch, "no-such-dir", "o.qbe")], b"int x;\n")]
+    res = {}
+    for name, cmd, data in runs:
+        rc, out, err = vlib.run(cmd, stdin=data, timeout=TIMEOUT)
+        res[name] = (rc, err.decode("utf-8", "replace"))
+        if gcov:
+            vlib.run([gcov.bin] + cmd[1:], stdin=data, timeout=TIMEOUT, env=gcov.env)
+    if os.path.exists("/dev/full"):
+        with open("/dev/full", "wb") as full:
+            p = subprocess.run([exe], input=b"int x;\n", stdout=full, stderr=subprocess.PIPE, timeout=TIMEOUT)
+        res["E_write_failed"] = (p.returncode, p.stderr.decode("utf-8", "replace"))
+        if gcov:
+            with open("/dev/full", "wb") as full:
+                subprocess.run([gcov.bin], input=b"int x;\n", stdout=full, stderr=subprocess.PIPE, timeout=TIMEOUT, env=gcov.env)
+    for name, (rc, err) in sorted(res.items()):
+        ok, ids = sites.classify(err)
+        ctx.count(name)
+        if rc != 1 or not ok or not ids:
+            ctx.violation("env:%s:%s" % (name, outcome(rc, err, ok)), "I/O failure %s must exit 1 with a `cproc-qbe: ...` diagnostic; observed rc=%s stderr=%r" % (name, rc, err[:120]),
+                          {"name": name, "rc": rc, "stderr": err[:300]})
+        for i in ids:
+            sites.hit[i] += 1
+    return sorted(res)
+
+
 # --- the check ---------------------------------------------------------------------------------------
 def observe(objdir, src):
     rc, out, err = vlib.cproc(objdir, src, timeout=TIMEOUT)
@@ -191,10 +256,13 @@ def case_key(c, obs):
     return "valid:%s:%s:%s:%s" % (c["frag"]["form"], c["sub"], c["pos"], obs)
 
 
-def run_cases(ctx, cases, rend, objdir, sites, audit, do_audit=True):
+def run_cases(ctx, cases, rend, objdir, sites, audit, do_audit=True, gcov=None):
     def one(c):
         src = rend.program(c["base"], c["pos"], c["frag"])
         rc, out, err = observe(objdir, src)
+        if gcov and rc == 1:
+            if gcov.run(src) != rc:
+                gcov.mismatch += 1
         return c, src, rc, out, err
 
     results = vlib.pmap(one, cases, workers=16)
@@ -262,9 +330,10 @@ def private_build(dst):
 
 def run(ctx):
     objdir = private_build(ctx.path("bin"))
-    cfgs = ["MC_CStatic_quick.cfg"] if ctx.quick else ["MC_CStatic_thorough.cfg", "MC_CStatic_compose.cfg"]
+    cfgs = ["MC_CStatic_quick.cfg"] if ctx.quick else ["MC_CStatic_thorough.cfg", "MC_CStatic_compose.cfg", "MC_CStatic_composectx.cfg"]
     sites = SiteIndex(vlib.REPO)
     audit = AuditCache()
+    gcov = None if ctx.quick else Gcov(ctx.scratch)
     meta = None
     total = collections.Counter()
     by_rule = collections.defaultdict(set)
@@ -284,7 +353,7 @@ def run(ctx):
         rend = Renderer(meta)
         for c in cases:
             claims[c["claim"]] += 1
-        stats, rb, bad = run_cases(ctx, cases, rend, objdir, sites, audit)
+        stats, rb, bad = run_cases(ctx, cases, rend, objdir, sites, audit, gcov=gcov)
         total.update(stats)
         for k, s in rb.items():
             by_rule[k] |= s
@@ -300,6 +369,7 @@ def run(ctx):
     missing = [n for n in meta["rules"] + meta["unsup"] if claims[n] == 0]
     if missing:
         raise vlib.MachineryError("rules without an explored witness: %s" % missing)
+    ctx.cov["environment_cases"] = io_cases(ctx, objdir, sites, gcov)
     all_ids = ["%s:%d" % (s[0], s[1]) for s in sites.sites]
     reached = [i for i in all_ids if sites.hit[i]]
     unreached = [{"site": "%s:%d" % (s[0], s[1]), "kind": s[2], "fmt": s[3]} for s in sites.sites if not sites.hit["%s:%d" % (s[0], s[1])]]
@@ -313,6 +383,17 @@ def run(ctx):
     ctx.cov["diagnostic_messages_reached"] = sum(1 for k, v in fmts.items() if any(sites.hit[i] for i in v))
     ctx.cov["sites_sharing_a_message"] = {k[1]: v for k, v in fmts.items() if len(v) > 1}
     ctx.cov["diagnostic_sites_unreached"] = unreached
+    ctx.cov["site_measure"] = "message matching: a site counts as reached when an observed diagnostic matches its format string (sites sharing a text are indistinguishable)"
+    if gcov:
+        if gcov.mismatch:
+            raise vlib.MachineryError("coverage build and plain build disagree on the exit status of %d cases" % gcov.mismatch)
+        ex = gcov.executed_lines()
+        exact = [i for i in all_ids if i in ex]
+        ctx.cov["exact_sites_reached"] = len(exact)
+        ctx.cov["exact_sites_reached_fraction"] = round(len(exact) / max(1, len(all_ids)), 3)
+        ctx.cov["exact_sites_unreached"] = [{"site": "%s:%d" % (s[0], s[1]), "kind": s[2], "fmt": s[3], "why": why_unreached(s)}
+                                            for s in sites.sites if "%s:%d" % (s[0], s[1]) not in ex]
+        ctx.cov["site_measure"] += "; exact_*: gcov line counts of a --coverage build of the same sources run on the same cases"
     ctx.cov["rule_to_sites"] = {k: sorted(v) for k, v in sorted(by_rule.items())}
     ctx.cov["cases_by_verdict"] = dict(total)
     ctx.cov["claims"] = len(claims)
@@ -320,6 +401,21 @@ def run(ctx):
                        "hand-chosen witnesses of every named rule (Violate_r, checked by TLC to violate exactly r) and the curated "
                        "valid twins; thorough: additionally every fragment of the universe (Compose). Each is rendered and compiled. "
                        "non-trivial = anything but the 20 unmutated bases")
+
+
+def why_unreached(s):
+    fn, line, kind, fmt = s
+    if "internal error" in fmt or fmt.startswith(("unimplemented", "not a scalar", "invalid value", "type has no QBE", "not a address", "cannot print")):
+        return "internal invariant (reachable only through another defect)"
+    if fmt == "_Atomic is not yet supported":
+        return "dead code: typequal() is called first in declspecs' loop and reports T_ATOMIC itself"
+    if fmt.startswith("invalid floating constant '"):
+        return "unreachable: a TNUMBER token always starts with a digit (or .digit), so strtod always consumes something"
+    if fmt in ("expression is not an object",) or fmt.startswith("identifier '%s' is not an object"):
+        return "unreachable from parsed C: expr.c rejects non-lvalues before qbe.c:funclval sees them"
+    if fmt == "%s '%s' redeclared with different linkage":
+        return "unreachable (block-scope twin of the file-scope check): decl.c:getlinkage copies the prior declaration's linkage, so they cannot differ"
+    return "no rule in the catalogue yet"
 
 
 def replay(ctx, path):
